@@ -20,10 +20,13 @@ Full(r) == TmEquiv(r.lay, r.pre, r.tree)
 \* <<has opinion, ok, reference outcome, reference output>>
 Verdict(r) ==
   LET full == Full(r)
-      ref == IF TmSrc(r.tree) = r.src THEN TmRun(full, r.glob, "periter") ELSE [outcome |-> "undef", out |-> <<>>]
-      op == ref.outcome \in {"ok", "runerror"} IN
+      \* a misplaced break / continue (family "reject"): the template must be refused at build time (only the class is judged)
+      ref == IF TmSrc(r.tree) # r.src THEN [outcome |-> "undef", out |-> <<>>]
+             ELSE IF TmMisplacedJump(r.tree) THEN [outcome |-> "builderror", out |-> <<>>]
+             ELSE TmRun(full, r.glob, "periter")
+      op == ref.outcome \in {"ok", "runerror", "builderror"} IN
   <<op,
-    ~op \/ (IF ref.outcome = "ok" THEN r.outcome = "ok" /\ r.out = ref.out ELSE r.outcome = "runerror"),
+    ~op \/ (IF ref.outcome = "ok" THEN r.outcome = "ok" /\ r.out = ref.out ELSE r.outcome = ref.outcome),
     ref.outcome, ref.out>>
 \* the root cause as far as the reference can name it
 Cause(r, v) ==
@@ -31,6 +34,7 @@ Cause(r, v) ==
   IF r.outcome = "builderror" /\ r.fmt = "html" /\ "end-using-in-typed-body" \in pats THEN "context-not-restored-after-end-using"
   ELSE IF r.outcome = "builderror" /\ "fallthrough-after-macro-or-using" \in pats THEN "fallthrough-after-macro-or-using-refused"
   ELSE IF r.outcome = "hostpanic" /\ v[3] = "runerror" THEN "run-error-in-nested-macro-call-panics-into-host"
+  ELSE IF v[3] = "builderror" THEN "misplaced-break-or-continue-accepted"
   ELSE IF r.outcome \in {"builderror", "hostpanic"} THEN r.outcome
   ELSE IF v[3] = "ok" /\ r.outcome = "runerror" THEN "unexpected-run-error"
   ELSE IF v[3] = "runerror" /\ r.outcome = "ok" THEN "missing-run-error"
